@@ -53,6 +53,10 @@ BASE_GIRS = {
     'GLib-2.0.gir': GIR_HEAD + '''  <package name="glib-2.0"/>
   <namespace name="GLib" version="2.0" shared-library="" c:identifier-prefixes="G" c:symbol-prefixes="g,glib">
     <alias name="Quark" c:type="GQuark"><type name="guint32" c:type="guint32"/></alias>
+    <callback name="DestroyNotify" c:type="GDestroyNotify">
+      <return-value transfer-ownership="none"><type name="none" c:type="void"/></return-value>
+      <parameters><parameter name="data" transfer-ownership="none" nullable="1"><type name="gpointer" c:type="gpointer"/></parameter></parameters>
+    </callback>
     <record name="Variant" c:type="GVariant" glib:type-name="GVariant" glib:get-type="intern" c:symbol-prefix="variant"/>
     <record name="Error" c:type="GError" glib:type-name="GError" glib:get-type="g_error_get_type" c:symbol-prefix="error"/>
   </namespace>
@@ -101,6 +105,245 @@ def snake(w):
     return ''.join(out)
 
 
+# free text that flows into the XML (doc text, constant values, package / c:include names):
+# CR, LF, TAB, both quotes, & < >, non-ASCII, a character reference look-alike
+SPICE = ['&', '<b>bold</b>', '"dq"', "'sq'", 'é中ß', 'tab\there', 'cr\rhere', '&amp;', '&#10;', ']]>', ' nbsp', '%s %d']
+
+# a dependency GIR holding one node of every kind GIRParser builds (and the kinds it skips in
+# types-only mode: constant, function, function-macro), with the attributes the passes consult
+# on a node of another namespace: introspectable / skip, disguised / pointer / foreign / opaque,
+# glib:get-type, glib:type-struct, abstract / final, glib:fundamental with ref / unref functions,
+# glib:error-domain, parents and prerequisites, callback parameters with closure / destroy.
+RICH_GIR = GIR_HEAD + '''  <include name="GObject" version="2.0"/>
+  <package name="rich-1.0"/>
+  <c:include name="rich/rich.h"/>
+  <namespace name="Rich" version="1.0" shared-library="librich.so.1" c:identifier-prefixes="Rich" c:symbol-prefixes="rich">
+    <alias name="Count" c:type="RichCount"><type name="guint" c:type="guint"/></alias>
+    <alias name="RecAlias" c:type="RichRecAlias"><type name="Rec" c:type="RichRec"/></alias>
+    <alias name="HiddenAlias" c:type="RichHiddenAlias" introspectable="0"><type name="gpointer" c:type="gpointer"/></alias>
+    <alias name="FuncAlias" c:type="RichFuncAlias"><type name="Func" c:type="RichFunc"/></alias>
+    <bitfield name="Flags" c:type="RichFlags" glib:type-name="RichFlags" glib:get-type="rich_flags_get_type">
+      <member name="a" value="1" c:identifier="RICH_FLAGS_A" glib:nick="a"/>
+      <member name="b" value="2" c:identifier="RICH_FLAGS_B" glib:nick="b"/>
+    </bitfield>
+    <bitfield name="PlainFlags" c:type="RichPlainFlags">
+      <member name="x" value="4" c:identifier="RICH_PLAIN_FLAGS_X"/>
+    </bitfield>
+    <enumeration name="Mode" c:type="RichMode" glib:type-name="RichMode" glib:get-type="rich_mode_get_type">
+      <member name="one" value="0" c:identifier="RICH_MODE_ONE" glib:nick="one"/>
+      <function name="to_string" c:identifier="rich_mode_to_string">
+        <return-value transfer-ownership="none"><type name="utf8" c:type="const char*"/></return-value>
+        <parameters><parameter name="m" transfer-ownership="none"><type name="Mode" c:type="RichMode"/></parameter></parameters>
+      </function>
+    </enumeration>
+    <enumeration name="Error" c:type="RichError" glib:error-domain="rich-error-quark">
+      <member name="failed" value="0" c:identifier="RICH_ERROR_FAILED"/>
+    </enumeration>
+    <callback name="Func" c:type="RichFunc">
+      <return-value transfer-ownership="none"><type name="none" c:type="void"/></return-value>
+      <parameters>
+        <parameter name="obj" transfer-ownership="none"><type name="Object" c:type="RichObject*"/></parameter>
+        <parameter name="user_data" transfer-ownership="none" nullable="1" allow-none="1" closure="1"><type name="gpointer" c:type="gpointer"/></parameter>
+      </parameters>
+    </callback>
+    <callback name="NoDataFunc" c:type="RichNoDataFunc">
+      <return-value transfer-ownership="none"><type name="gboolean" c:type="gboolean"/></return-value>
+      <parameters>
+        <parameter name="n" transfer-ownership="none"><type name="gint" c:type="int"/></parameter>
+      </parameters>
+    </callback>
+    <callback name="HiddenFunc" c:type="RichHiddenFunc" introspectable="0">
+      <return-value transfer-ownership="none"><type name="none" c:type="void"/></return-value>
+      <parameters>
+        <parameter name="fmt" transfer-ownership="none"><type name="utf8" c:type="const char*"/></parameter>
+        <parameter name="..." transfer-ownership="none"><varargs/></parameter>
+      </parameters>
+    </callback>
+    <callback name="ThrowingFunc" c:type="RichThrowingFunc" throws="1">
+      <return-value transfer-ownership="full"><type name="Rec" c:type="RichRec*"/></return-value>
+    </callback>
+    <class name="Object" c:symbol-prefix="object" c:type="RichObject" parent="GObject.Object" abstract="1" glib:type-name="RichObject" glib:get-type="rich_object_get_type" glib:type-struct="ObjectClass">
+      <implements name="Iface"/>
+      <constructor name="new" c:identifier="rich_object_new">
+        <return-value transfer-ownership="full"><type name="Object" c:type="RichObject*"/></return-value>
+      </constructor>
+      <virtual-method name="changed" invoker="changed">
+        <return-value transfer-ownership="none"><type name="none" c:type="void"/></return-value>
+        <parameters><instance-parameter name="self" transfer-ownership="none"><type name="Object" c:type="RichObject*"/></instance-parameter></parameters>
+      </virtual-method>
+      <method name="changed" c:identifier="rich_object_changed">
+        <return-value transfer-ownership="none"><type name="none" c:type="void"/></return-value>
+        <parameters><instance-parameter name="self" transfer-ownership="none"><type name="Object" c:type="RichObject*"/></instance-parameter></parameters>
+      </method>
+      <property name="mode" writable="1" transfer-ownership="none"><type name="Mode"/></property>
+      <field name="parent_instance"><type name="GObject.Object" c:type="GObject"/></field>
+      <field name="priv" private="1" readable="0"><type name="gpointer" c:type="gpointer"/></field>
+      <glib:signal name="changed" when="last">
+        <return-value transfer-ownership="none"><type name="none" c:type="void"/></return-value>
+      </glib:signal>
+    </class>
+    <record name="ObjectClass" c:type="RichObjectClass" glib:is-gtype-struct-for="Object">
+      <field name="parent_class"><type name="GObject.ObjectClass" c:type="GObjectClass"/></field>
+      <field name="changed">
+        <callback name="changed">
+          <return-value transfer-ownership="none"><type name="none" c:type="void"/></return-value>
+          <parameters><parameter name="self" transfer-ownership="none"><type name="Object" c:type="RichObject*"/></parameter></parameters>
+        </callback>
+      </field>
+    </record>
+    <class name="Final" c:symbol-prefix="final" c:type="RichFinal" parent="Object" final="1" glib:type-name="RichFinal" glib:get-type="rich_final_get_type"/>
+    <class name="Fundamental" c:symbol-prefix="fundamental" c:type="RichFundamental" glib:type-name="RichFundamental" glib:get-type="rich_fundamental_get_type" glib:fundamental="1" glib:ref-func="rich_fundamental_ref" glib:unref-func="rich_fundamental_unref" glib:set-value-func="rich_value_set_fundamental" glib:get-value-func="rich_value_get_fundamental"/>
+    <class name="HiddenObject" c:symbol-prefix="hidden_object" c:type="RichHiddenObject" parent="GObject.Object" introspectable="0" glib:type-name="RichHiddenObject" glib:get-type="rich_hidden_object_get_type"/>
+    <interface name="Iface" c:symbol-prefix="iface" c:type="RichIface" glib:type-name="RichIface" glib:get-type="rich_iface_get_type" glib:type-struct="IfaceInterface">
+      <prerequisite name="GObject.Object"/>
+    </interface>
+    <record name="IfaceInterface" c:type="RichIfaceInterface" glib:is-gtype-struct-for="Iface">
+      <field name="g_iface"><type name="GObject.TypeInterface" c:type="GTypeInterface"/></field>
+    </record>
+    <record name="Rec" c:type="RichRec">
+      <field name="x" writable="1"><type name="gint" c:type="int"/></field>
+      <field name="cb"><type name="Func" c:type="RichFunc"/></field>
+      <union name="u" c:type="u"><field name="i" writable="1"><type name="gint" c:type="int"/></field></union>
+      <method name="free" c:identifier="rich_rec_free">
+        <return-value transfer-ownership="none"><type name="none" c:type="void"/></return-value>
+        <parameters><instance-parameter name="self" transfer-ownership="full"><type name="Rec" c:type="RichRec*"/></instance-parameter></parameters>
+      </method>
+    </record>
+    <record name="Boxed" c:type="RichBoxed" glib:type-name="RichBoxed" glib:get-type="rich_boxed_get_type" c:symbol-prefix="boxed" copy-function="rich_boxed_copy" free-function="rich_boxed_free"/>
+    <record name="Opaque" c:type="RichOpaque" opaque="1"/>
+    <record name="Disguised" c:type="RichDisguised" disguised="1" opaque="1"/>
+    <record name="Pointer" c:type="RichPointer" pointer="1"/>
+    <record name="Foreign" c:type="RichForeign" foreign="1"/>
+    <record name="Skipped" c:type="RichSkipped" skip="1" introspectable="0"/>
+    <union name="Value" c:type="RichValue">
+      <field name="i" writable="1"><type name="gint" c:type="int"/></field>
+      <field name="d" writable="1"><type name="gdouble" c:type="double"/></field>
+    </union>
+    <union name="BoxedUnion" c:type="RichBoxedUnion" glib:type-name="RichBoxedUnion" glib:get-type="rich_boxed_union_get_type" c:symbol-prefix="boxed_union"/>
+    <glib:boxed glib:name="Handle" c:symbol-prefix="handle" glib:type-name="RichHandle" glib:get-type="rich_handle_get_type"/>
+    <constant name="MAX" value="42" c:type="RICH_MAX"><type name="gint" c:type="gint"/></constant>
+    <function name="init" c:identifier="rich_init">
+      <return-value transfer-ownership="none"><type name="none" c:type="void"/></return-value>
+    </function>
+    <function-macro name="CHECK" c:identifier="RICH_CHECK" introspectable="0">
+      <parameters><parameter name="x"/></parameters>
+    </function-macro>
+    <docsection name="rich"><doc xml:space="preserve">Text &amp; more.</doc></docsection>
+  </namespace>
+</repository>
+'''
+
+# how the scanned namespace uses the nodes of RICH_GIR: (suffix, C type, by value?)
+RICH_USES = [('count', 'RichCount', True), ('rec_alias', 'RichRecAlias', False), ('hidden_alias', 'RichHiddenAlias', True),
+             ('flags', 'RichFlags', True), ('plain_flags', 'RichPlainFlags', True), ('mode', 'RichMode', True),
+             ('error', 'RichError', True), ('object', 'RichObject', False), ('final', 'RichFinal', False),
+             ('fundamental', 'RichFundamental', False), ('hidden_object', 'RichHiddenObject', False),
+             ('iface', 'RichIface', False), ('rec', 'RichRec', False), ('boxed', 'RichBoxed', False),
+             ('opaque', 'RichOpaque', False), ('disguised', 'RichDisguised', True), ('pointer', 'RichPointer', True),
+             ('foreign', 'RichForeign', False), ('skipped', 'RichSkipped', False), ('value', 'RichValue', False),
+             ('boxed_union', 'RichBoxedUnion', False), ('handle', 'RichHandle', False),
+             ('object_class', 'RichObjectClass', False)]
+RICH_CALLBACKS = ['RichFunc', 'RichNoDataFunc', 'RichHiddenFunc', 'RichThrowingFunc', 'RichFuncAlias']
+
+
+# ---------------------------------------------------------------------------------------------
+# declare-before-use: which declaration orders a C front end can deliver
+# ---------------------------------------------------------------------------------------------
+def type_refs(t, out):
+    """typedef names mentioned by a type expression"""
+    if not isinstance(t, dict):
+        return
+    k = t.get('k')
+    if k == 'typedef':
+        out.add(t['n'])
+    elif k == 'ptr':
+        type_refs(t.get('to'), out)
+    elif k == 'array':
+        type_refs(t.get('of'), out)
+    elif k == 'func':
+        type_refs(t.get('ret'), out)
+        for p in t.get('params', []):
+            type_refs(p.get('type'), out)
+    elif k in ('struct', 'union'):
+        for f in t.get('fields', []):
+            type_refs(f.get('type'), out)
+
+
+def decl_refs(d):
+    out = set()
+    if d['d'] == 'function':
+        type_refs(d.get('ret'), out)
+        for p in d.get('params', []):
+            type_refs(p.get('type'), out)
+    elif d['d'] in ('struct', 'union'):
+        for f in d.get('fields', []):
+            type_refs(f.get('type'), out)
+    else:
+        type_refs(d.get('type'), out)
+    return out
+
+
+def decl_prereqs(decls, tags):
+    """index -> indices that must come earlier: the typedef that declares a name precedes every use
+    of the name (a C lexer delivers an identifier as a type name only after its typedef: an
+    earlier use is a syntax error and the declaration never reaches the scanner); struct TAGS
+    may be used before they are defined; the typedefs of one tag, and its struct symbols, keep
+    their relative order (the first typedef is the primary record by design)."""
+    first = {}
+    for i, d in enumerate(decls):
+        if d['d'] == 'typedef':
+            first.setdefault(d['name'], i)
+    pre = {i: set() for i in range(len(decls))}
+    for i, d in enumerate(decls):
+        for n in decl_refs(d):
+            j = first.get(n)
+            if j is not None and j != i:
+                pre[i].add(j)
+    for info in tags.values():
+        for grp in (info.get('typedefs', []), info.get('structs', [])):
+            g = sorted(grp)
+            for a, b in zip(g, g[1:]):
+                pre[b].add(a)
+    return pre
+
+
+def use_before_declaration(decls):
+    """names that are used as a type before the typedef declaring them (declared in `decls`)"""
+    first = {}
+    for i, d in enumerate(decls):
+        if d['d'] == 'typedef':
+            first.setdefault(d['name'], i)
+    return sorted(set(n for i, d in enumerate(decls) for n in decl_refs(d) if n in first and first[n] > i))
+
+
+def linear_extension(decls, tags, pick):
+    """an order of range(len(decls)) that respects decl_prereqs; `pick(ready)` chooses the next
+    index.  None when the constraints are cyclic."""
+    pre = decl_prereqs(decls, tags)
+    placed = set()
+    remaining = list(range(len(decls)))
+    order = []
+    while remaining:
+        ready = [i for i in remaining if pre[i] <= placed]
+        if not ready:
+            return None
+        i = pick(ready)
+        order.append(i)
+        placed.add(i)
+        remaining.remove(i)
+    return order
+
+
+def reorder(inp, order):
+    """apply a declaration order (list of old indices) to an input, re-indexing the tag table"""
+    new_of = {old: new for new, old in enumerate(order)}
+    inp['decls'] = [inp['decls'][i] for i in order]
+    for info in inp['tags'].values():
+        for key in ('typedefs', 'structs'):
+            info[key] = [new_of[i] for i in info.get(key, [])]
+    return inp
+
+
 # ---------------------------------------------------------------------------------------------
 # input generator: an abstract input (JSON) that `materialise` turns into a scanpipe cfg
 # ---------------------------------------------------------------------------------------------
@@ -144,12 +387,22 @@ class Gen(object):
         for p, txt in params:
             lines.append(' * @%s: %s' % (p, txt))
         lines.append(' *')
-        lines.append(' * %s' % body)
+        lines.append(' * %s' % self.spice(body))
+        if self.rng.random() < 0.15:
+            lines.append(' *')
+            lines.append(' * Second paragraph: %s' % self.spice('more text.', 0.8))
         if ret:
             lines.append(' *')
             lines.append(' * Returns: %s' % ret)
         lines.append(' */')
         self.comments.append(['\n'.join(lines), f, line])
+
+    def spice(self, text, p=0.25):
+        """free text with the characters that need care on the way into XML"""
+        if self.rng.random() >= p:
+            return text
+        self.features.add('text:special-chars')
+        return '%s %s' % (text, ' '.join(self.rng.sample(SPICE, self.rng.randint(1, 4))))
 
     def fields(self):
         rng = self.rng
@@ -235,6 +488,10 @@ class Gen(object):
             self.features.add('enum')
         for _ in range(rng.choice([0, 1, 2, 4])):
             self.add({'d': 'const', 'name': 'FOO_%s' % snake(self.word()).upper(), 'int': rng.randint(-5, 500)})
+        for _ in range(rng.choice([0, 0, 1, 2])):
+            self.add({'d': 'const', 'name': 'FOO_%s_STR' % snake(self.word()).upper(),
+                      'string': self.spice('text', 0.7) + rng.choice(['', '\n', '\r\n', '\t'])})
+            self.features.add('const:string')
         for _ in range(rng.choice([0, 1, 2, 3])):
             self.add({'d': 'typedef', 'name': 'Foo' + self.word(), 'type': rng.choice([T('int'), T('unsigned int'), P(T('char'))])})
             self.features.add('alias')
@@ -250,6 +507,128 @@ class Gen(object):
         if rng.random() < 0.4:
             self.comment('SECTION:' + snake(self.word()), 'A section.')
             self.features.add('section')
+
+    def add_alias_chains(self):
+        """typedef chains (alias of alias of ... of a root) with the callables using them, written in
+        dependency order.  Roots that are not introspectable (varargs callback, callback over a type
+        of no namespace) exercise the fixed point of IntrospectablePass.validate: which aliases,
+        callbacks and functions end up introspectable="0" must not depend on where the unrelated
+        declarations stand."""
+        rng = self.rng
+        for _ in range(rng.choice([0, 1, 1, 2])):
+            w = self.word()
+            sym = 'foo_' + snake(w)
+            root_kind = rng.choice(['varargs-cb', 'foreign-cb', 'plain-cb', 'int', 'foreign-ptr'])
+            self.features.add('alias-chain:' + root_kind)
+            root = 'Foo%s%s' % (w, 'Func' if root_kind.endswith('-cb') else 'Root')
+            cb = lambda params: {'k': 'ptr', 'to': {'k': 'func', 'ret': T('void'), 'params': params}}
+            if root_kind == 'varargs-cb':
+                ty = cb([{'name': 'fmt', 'type': P(T('char', q=scanpipe.Q_CONST))}, {'ellipsis': True}])
+            elif root_kind == 'foreign-cb':
+                ty = cb([{'name': 'stream', 'type': P(T('FILE'))}])      # a libc type: of no namespace
+            elif root_kind == 'plain-cb':
+                ty = cb([{'name': 'n', 'type': T('int')}, {'name': 'user_data', 'type': P(T('void'))}])
+            elif root_kind == 'int':
+                ty = T('int')
+            else:
+                ty = P(T('FILE'))
+            self.add({'d': 'typedef', 'name': root, 'type': ty})
+            chain = [root]
+            depth = rng.choice([1, 2, 2, 3, 4])
+            self.features.add('alias-chain:depth%d' % depth)
+            for i in range(depth):
+                nm = 'Foo%sAl%d' % (w, i + 1)
+                self.add({'d': 'typedef', 'name': nm, 'type': T(chain[-1])})
+                chain.append(nm)
+            for i, nm in enumerate(chain):
+                if rng.random() < 0.6:
+                    fn = '%s_take%d' % (sym, i)
+                    self.add({'d': 'function', 'name': fn, 'ret': T('void'),
+                              'params': [{'name': 'v', 'type': T(nm)}, {'name': 'data', 'type': P(T('void'))}]})
+                    if rng.random() < 0.3:
+                        self.comment(fn, 'Takes a %s.' % nm, [('v', 'the value'), ('data', 'user data')])
+            if rng.random() < 0.6:
+                # a callback over the end of the chain, an alias of THAT callback, and their users
+                outer = 'Foo%sOuterFunc' % w
+                self.add({'d': 'typedef', 'name': outer,
+                          'type': cb([{'name': 'inner', 'type': T(chain[-1])}, {'name': 'data', 'type': P(T('void'))}])})
+                self.add({'d': 'typedef', 'name': outer + 'Al', 'type': T(outer)})
+                self.add({'d': 'function', 'name': sym + '_outer', 'ret': T('void'),
+                          'params': [{'name': 'f', 'type': T(outer + 'Al')}, {'name': 'data', 'type': P(T('void'))}]})
+                # a table of hooks: fields over the chain, a function-pointer field (anonymous callback)
+                # over it; the table's typedef may stand BEFORE the chain (forward declaration: the
+                # record then precedes the callbacks its fields use in the namespace)
+                tag = '_Foo%sTable' % w
+                info = {'typedefs': [], 'structs': [], 'shape': 'table'}
+                forward = rng.random() < 0.6
+                if forward:
+                    info['typedefs'].append(self.add({'d': 'typedef', 'name': tag[1:], 'type': {'k': 'struct', 'n': tag}}))
+                    pos_ = rng.randint(0, len(self.decls) - 1)
+                    self.decls.insert(pos_, self.decls.pop())          # anywhere earlier
+                    for inf in self.tags.values():
+                        for key_ in ('typedefs', 'structs'):
+                            inf[key_] = [i + 1 if i >= pos_ else i for i in inf[key_]]
+                    info['typedefs'] = [pos_]
+                info['structs'].append(self.add({'d': 'struct', 'name': tag, 'fields': [
+                    {'name': 'hook', 'type': T(rng.choice(chain))}, {'name': 'outer', 'type': T(outer)},
+                    {'name': 'anon', 'type': cb([{'name': 'v', 'type': T(rng.choice(chain))},
+                                                 {'name': 'data', 'type': P(T('void'))}])}]}))
+                if not forward and rng.random() < 0.7:
+                    info['typedefs'].append(self.add({'d': 'typedef', 'name': tag[1:], 'type': {'k': 'struct', 'n': tag}}))
+                self.tags[tag] = info
+                if info['typedefs']:
+                    self.add({'d': 'function', 'name': sym + '_table_install', 'ret': T('void'),
+                              'params': [{'name': 'self', 'type': P(T(tag[1:]))}]})
+                self.features.add('alias-chain:outer' + ('(table forward-declared)' if forward else ''))
+
+    def add_rich_uses(self):
+        """declarations that refer to every node kind of RICH_GIR"""
+        rng = self.rng
+        for sfx, ctype, by_value in RICH_USES:
+            if rng.random() < 0.6:
+                t = T(ctype) if by_value else P(T(ctype))
+                self.add({'d': 'function', 'name': 'foo_rich_take_' + sfx, 'ret': T('void'),
+                          'params': [{'name': 'v', 'type': t}]})
+            if rng.random() < 0.3:
+                t = T(ctype) if by_value else P(T(ctype))
+                self.add({'d': 'function', 'name': 'foo_rich_get_' + sfx, 'ret': t, 'params': []})
+            if rng.random() < 0.2:
+                self.add({'d': 'typedef', 'name': 'FooRich%sAl' % sfx.title().replace('_', ''), 'type': T(ctype)})
+        for cbn in RICH_CALLBACKS:
+            if rng.random() < 0.6:
+                ps = [{'name': 'cb', 'type': T(cbn)}, {'name': 'user_data', 'type': P(T('void'))}]
+                if rng.random() < 0.5:
+                    ps.append({'name': 'notify', 'type': T('GDestroyNotify')})
+                self.add({'d': 'function', 'name': 'foo_rich_call_' + snake(cbn[4:]), 'ret': T('void'), 'params': ps})
+            if rng.random() < 0.3:
+                self.add({'d': 'typedef', 'name': 'Foo%sAl' % cbn[4:], 'type': T(cbn)})
+        if rng.random() < 0.6:
+            self.add({'d': 'struct', 'name': '_FooRichHolder',
+                      'fields': [{'name': 'mode', 'type': T('RichMode')}, {'name': 'rec', 'type': T('RichRec')},
+                                 {'name': 'obj', 'type': P(T('RichObject'))}, {'name': 'cb', 'type': T('RichFunc')},
+                                 {'name': 'hidden', 'type': T('RichHiddenFunc')}, {'name': 'val', 'type': T('RichValue')}]})
+        if rng.random() < 0.6:
+            # a class derived from the dependency's abstract class, implementing its interface
+            parts = [
+                {'d': 'typedef', 'name': 'FooRichChild', 'type': {'k': 'struct', 'n': '_FooRichChild'}},
+                {'d': 'typedef', 'name': 'FooRichChildClass', 'type': {'k': 'struct', 'n': '_FooRichChildClass'}},
+                {'d': 'struct', 'name': '_FooRichChild', 'fields': [{'name': 'parent_instance', 'type': T('RichObject')}]},
+                {'d': 'struct', 'name': '_FooRichChildClass', 'fields': [{'name': 'parent_class', 'type': T('RichObjectClass')}]},
+                {'d': 'function', 'name': 'foo_rich_child_get_type', 'ret': T('GType'), 'params': []},
+                {'d': 'function', 'name': 'foo_rich_child_new', 'ret': P(T('FooRichChild')), 'params': []},
+                {'d': 'function', 'name': 'foo_rich_child_poke', 'ret': T('void'),
+                 'params': [{'name': 'self', 'type': P(T('FooRichChild'))}, {'name': 'mode', 'type': T('RichMode')}]}]
+            for prt in parts:
+                idx = self.add(prt)
+                if prt['d'] == 'typedef':
+                    self.tags.setdefault(prt['type']['n'], {'typedefs': [], 'structs': [], 'shape': 'class'})['typedefs'].append(idx)
+                elif prt['d'] == 'struct':
+                    self.tags.setdefault(prt['name'], {'typedefs': [], 'structs': [], 'shape': 'class'})['structs'].append(idx)
+            self.dump.append({'tag': 'class', 'name': 'FooRichChild', 'get_type': 'foo_rich_child_get_type',
+                              'parents': 'RichObject,GObject', 'implements': ['RichIface'],
+                              'props': [{'name': 'mode', 'type': 'RichMode', 'flags': 3}],
+                              'signals': [{'name': 'poked', 'ret': 'void', 'params': ['RichMode', 'RichObject']}]})
+            self.features.add('deps:rich-child-class')
 
     def add_class(self, iface=False):
         rng = self.rng
@@ -329,8 +708,16 @@ class Gen(object):
             body += '    <record name="Only%s" c:type="%sOnly%s"/>\n' % (nm[-1], prefix, nm[-1])
             body += '  </namespace>\n</repository>\n'
             self.deps['%s-1.0.gir' % nm] = GIR_HEAD + body
+        rich = rng.random() < 0.5
+        rich_via_top = rich and bool(names) and rng.random() < 0.5
+        if rich:
+            self.deps['Rich-1.0.gir'] = RICH_GIR
+            self.features.add('deps:rich' + ('(transitive)' if rich_via_top else ''))
+            self.add_rich_uses()
         if names:
             body = ''.join('  <include name="%s" version="1.0"/>\n' % x for x in names)
+            if rich_via_top:
+                body += '  <include name="Rich" version="1.0"/>\n'
             body += '  <include name="Gio" version="2.0"/>\n'
             body += '  <namespace name="Top" version="1.0" shared-library="" c:identifier-prefixes="Top" c:symbol-prefixes="top">\n'
             body += '    <record name="Level" c:type="TopLevel"/>\n  </namespace>\n</repository>\n'
@@ -350,6 +737,8 @@ class Gen(object):
         order = ['GObject-2.0.gir', 'Gio-2.0.gir']
         rng.shuffle(order)
         self.includes = order[:rng.choice([1, 2])] + self.includes
+        if rich and not rich_via_top:
+            self.includes.insert(rng.randint(0, len(self.includes)), 'Rich-1.0.gir')
         if 'GObject-2.0.gir' not in self.includes and 'Gio-2.0.gir' not in self.includes:
             self.includes.insert(0, 'GObject-2.0.gir')
 
@@ -360,6 +749,7 @@ def gen_input(rng, rich=None):
     for _ in range(rng.choice([1, 2, 3, 5])):
         g.add_compound()
     g.add_misc()
+    g.add_alias_chains()
     for _ in range(rng.choice([0, 1, 1, 2, 3])):
         g.add_class(iface=rng.random() < 0.3)
     # duplicated identifier blocks (flagged by the parser: outside the quantifier unless silent)
@@ -375,9 +765,20 @@ def gen_input(rng, rich=None):
     ci = rng.sample(['foo.h', 'foo/foo.h', 'a.h', 'Z.h', 'b/b.h', 'glib.h', 'sub/deep/e.h', 'x.h', 'foo-extra.h'],
                     rng.randint(0, 8))
     ci += rng.sample(ci, min(len(ci), rng.randint(0, 2)))
-    return {'decls': g.decls, 'comments': g.comments, 'dump': g.dump, 'deps': g.deps, 'includes': g.includes,
-            'packages': pk, 'c_includes': ci, 'tags': g.tags, 'ambiguous': g.ambiguous, 'dup_blocks': dup,
-            'features': sorted(g.features)}
+    if rng.random() < 0.3:
+        # names that need escaping in an attribute value
+        pk += rng.sample(['a&b', 'q"uote', "ap'os", 'é-1.0', 'lt<gt>'], rng.randint(1, 3))
+        ci += rng.sample(['a&b.h', 'q"uote.h', 'é/中.h', 'lt<gt>.h', 'tab\t.h'], rng.randint(1, 3))
+        g.features.add('lists:special-chars')
+    inp = {'decls': g.decls, 'comments': g.comments, 'dump': g.dump, 'deps': g.deps, 'includes': g.includes,
+           'packages': pk, 'c_includes': ci, 'tags': g.tags, 'ambiguous': g.ambiguous, 'dup_blocks': dup,
+           'features': sorted(g.features)}
+    # the baseline is an order a C front end can deliver: every typedef name is declared before
+    # it is used (stable: the generated order is kept wherever that rule allows)
+    order = linear_extension(inp['decls'], inp['tags'], min)
+    if order is None:
+        raise HarnessError('generator produced cyclic typedef uses')
+    return reorder(inp, order)
 
 
 def render_dump(items):
@@ -478,8 +879,17 @@ def variant(inp, kind, rng):
             done += 1
         return v if done else None
     if kind == 'decls':
-        # shuffle all top-level declarations, keeping the relative order of the typedefs of one
-        # tag (the first typedef is the primary record by design) and of its struct symbols
+        # shuffle all top-level declarations into another order a C front end can deliver: a
+        # random linear extension of "typedef before the uses of its name" + the relative order of
+        # the typedefs of one tag and of its struct symbols (see decl_prereqs)
+        order = linear_extension(v['decls'], v['tags'], rng.choice)
+        if order is None or order == list(range(len(order))):
+            return None
+        return reorder(v, order)
+    if kind == 'decls-any':
+        # shuffle all top-level declarations, keeping only the relative order of the typedefs of
+        # one tag (the first typedef is the primary record by design) and of its struct symbols;
+        # names may end up used before their typedef (no C front end delivers that)
         idx = list(range(len(v['decls'])))
         perm = list(idx)
         rng.shuffle(perm)
@@ -492,6 +902,7 @@ def variant(inp, kind, rng):
                     for w_, i in zip(where, sorted(grp)):
                         new[w_] = v['decls'][i]
         v['decls'] = new
+        v['tags'] = {}          # indices are stale; the variant is not permuted again
         return v
     if kind == 'dump':
         if len(v['dump']) < 2:
@@ -510,8 +921,19 @@ def variant(inp, kind, rng):
     raise ValueError(kind)
 
 
-BYTE_VARIANTS = ['blocks', 'files', 'tagorder', 'tagmove', 'lists', 'cache', 'xcache']
-ORDER_VARIANTS = ['decls', 'dump']      # compared on the sibling-order signature (content may legitimately move)
+# compared byte for byte.  'decls' (whole-declaration shuffles that keep every typedef before the
+# uses of its name) belongs here: nothing in an element may depend on where the OTHER declarations
+# stand -- which nodes are introspectable="0", resolved types, attributes, docs, positions.
+BYTE_VARIANTS = ['blocks', 'files', 'tagorder', 'tagmove', 'lists', 'cache', 'xcache', 'decls']
+# 'dump': the order of the runtime dump entries -- byte for byte as well (kept apart only because it
+#         is drawn in the extra slot).
+# 'decls-any': unconstrained shuffles.  When the shuffled order still declares every typedef name
+#         before its uses it is judged byte for byte like 'decls'.  Otherwise the symbol stream is
+#         one no C front end delivers (scannerlexer.l returns an identifier as TYPEDEF_NAME only
+#         after its typedef; an earlier use is a syntax error and the declaration is dropped):
+#         outside the quantifier for the CONTENT of elements -- a byte difference is counted, not
+#         reported -- but the sibling order must still be the same function of names and kinds.
+EXTRA_VARIANTS = ['dump', 'decls-any', 'decls']
 
 RUNNER = r'''
 import json, os, sys, traceback
@@ -520,6 +942,22 @@ import scanpipe
 m = scanpipe.mods()
 job = json.load(open(sys.argv[1]))
 out = []
+# count the loads the real CacheStore answers from the cache (through its public load());
+# None when the class has been restructured: the byte comparison below does not depend on it
+loads = None
+try:
+    from giscanner import cachestore as _cs
+    _orig_load = _cs.CacheStore.load
+    loads = {'calls': 0, 'hits': 0}
+    def _counting_load(self, filename, *a, **k):
+        r_ = _orig_load(self, filename, *a, **k)
+        loads['calls'] += 1
+        if r_ is not None:
+            loads['hits'] += 1
+        return r_
+    _cs.CacheStore.load = _counting_load
+except Exception:
+    loads = None
 for j in job['jobs']:
     res = {'id': j['id']}
     try:
@@ -529,10 +967,20 @@ for j in job['jobs']:
         else:
             os.environ['GI_SCANNER_DISABLE_CACHE'] = '1'
         gir = None
+        girs = []
+        hits = []
         for _ in range(j.get('runs', 1)):
+            if loads is not None:
+                loads['calls'] = loads['hits'] = 0
             r = scanpipe.scan(j['cfg'])
             gir = r['gir']
+            girs.append(gir)
+            hits.append(None if loads is None else [loads['calls'], loads['hits']])
         res['gir'] = gir
+        if j.get('xdg'):
+            # every run of a cache job: [0] parsed afresh and stored (cold), [1:] loaded (warm)
+            res['girs'] = girs
+            res['loads'] = hits
         res['dup_warned'] = sum(1 for w in r['warnings'] if 'multiple comment blocks' in w['text'])
         if j.get('xdg'):
             d = os.path.join(j['xdg'], 'g-ir-scanner')
@@ -1123,7 +1571,7 @@ def metamorphic(ctx, cnt, pool, inputs, seeds, nperm, rng, samples):
             if len(chosen) < nperm + 1:
                 chosen += kinds_b[:nperm + 1 - len(chosen)]
             if si % 2 == 1:
-                chosen.append(rng.choice(ORDER_VARIANTS))
+                chosen.append(rng.choice([k for k in EXTRA_VARIANTS if k not in chosen] or EXTRA_VARIANTS))
             for kind in chosen:
                 jid = '%s|%s|%s' % (key, seed, kind)
                 if kind in ('cache', 'xcache'):
@@ -1193,36 +1641,59 @@ def metamorphic(ctx, cnt, pool, inputs, seeds, nperm, rng, samples):
             cnt.hit('variant:' + kind)
             cnt.hit('seed:%s' % seed)
             # an abort produces no GIR; its message may list a SET of positions: only the fact is compared
-            out = ('RAISED ' + r['error'].split(':')[0]) if 'error' in r else r['gir']
+            as_out = lambda g, rr: ('RAISED ' + rr['error'].split(':')[0]) if 'error' in rr else g
+            outs = [(kind, as_out(r.get('gir'), r))]
             if kind in ('cache', 'xcache'):
                 if r.get('cache_files', 0) == 0:
                     cnt.hit('cache:no-entries')
                 else:
                     cnt.hit('cache:warm-entries', r['cache_files'])
-            if out == base_out:
-                cnt.hit('equal')
-                continue
-            if kind in ORDER_VARIANTS and not out.startswith('RAISED') and not base_out.startswith('RAISED'):
-                if signature(out) == signature(base_out):
-                    cnt.hit('order-variant:same-order,content-differs')
-                    if len(ctx.notes) < 3:
-                        ctx.notes.append('%s shuffle changed content but not order (%s): %s' % (kind, key, first_diff(base_out, out)))
+                girs = r.get('girs') or []
+                loads = r.get('loads') or []
+                if kind == 'cache' and len(girs) > 1:
+                    # the first run parsed the dependencies afresh and stored them (cold), the last
+                    # one loaded them: both must give the baseline's bytes
+                    outs.insert(0, ('cache(cold run)', girs[0]))
+                    cnt.hit('cache:cold-run-compared')
+                warm = loads[-1] if loads else None
+                if warm is not None:
+                    cnt.hit('cache:warm-run-loads', warm[0])
+                    cnt.hit('cache:warm-run-hits', warm[1])
+                    cnt.hit('cache:warm-run-all-from-cache' if warm[0] and warm[0] == warm[1] else 'cache:warm-run-partly-parsed')
+            invalid_c = None
+            if kind in ('decls', 'decls-any') and v is not None:
+                invalid_c = use_before_declaration(inp['decls']) + use_before_declaration(v['decls'])
+                cnt.hit('%s:%s' % (kind, 'use-before-declaration' if invalid_c else 'declared-before-use'))
+            for label, out in outs:
+                if out == base_out:
+                    cnt.hit('equal')
                     continue
-            if kind in ('blocks', 'files') and inp.get('dup_blocks') and r.get('dup_warned') and base.get('dup_warned'):
-                cnt.hit('outside:duplicate-identifier-blocks(warned)')
-                continue
-            amb = inp.get('ambiguous') or []
-            replay = {'kind': 'meta', 'input': inp, 'variant': kind, 'variant_input': v, 'seed': seed,
-                      'base_seed': seeds[0], 'first_diff': first_diff(base_out, out)}
-            if amb and normalise_ambiguous(out, amb) == normalise_ambiguous(base_out, amb):
-                cnt.hit('finding:include-set-order')
-                ctx.report_failure('include-set-order/ambiguous-ctype',
-                                   PENDING_FINDINGS['include-set-order/ambiguous-ctype'], replay)
-                continue
-            what = ('GIR differs from the baseline (PYTHONHASHSEED=%s, unpermuted) under variant %r with PYTHONHASHSEED=%s: %s'
-                    % (seeds[0], kind, seed, replay['first_diff']))
-            ctx.report_failure('meta:%s:%s:%s' % (hashlib.sha1(json.dumps(inp, sort_keys=True).encode()).hexdigest()[:12],
-                                                  kind, seed), what, replay)
+                if kind in ('blocks', 'files') and inp.get('dup_blocks') and r.get('dup_warned') and base.get('dup_warned'):
+                    cnt.hit('outside:duplicate-identifier-blocks(warned)')
+                    continue
+                amb = inp.get('ambiguous') or []
+                replay = {'kind': 'meta', 'input': inp, 'variant': kind, 'variant_input': v, 'seed': seed,
+                          'base_seed': seeds[0], 'first_diff': first_diff(base_out, out)}
+                if amb and normalise_ambiguous(out, amb) == normalise_ambiguous(base_out, amb):
+                    cnt.hit('finding:include-set-order')
+                    ctx.report_failure('include-set-order/ambiguous-ctype',
+                                       PENDING_FINDINGS['include-set-order/ambiguous-ctype'], replay)
+                    continue
+                if invalid_c and not out.startswith('RAISED') and not base_out.startswith('RAISED') \
+                        and signature(normalise_ambiguous(out, amb)) == signature(normalise_ambiguous(base_out, amb)):
+                    # a declaration order no C front end delivers: the content of elements is outside
+                    # the quantifier (counted, shown as a note); the sibling order was still checked
+                    cnt.hit('outside:use-before-declaration,content-differs')
+                    if len(metamorphic.outside_examples) < 3:
+                        metamorphic.outside_examples.append(
+                            'not judged: shuffle %s of %s uses %s before the typedef; same sibling order, content differs: %s'
+                            % (kind, key, ', '.join(invalid_c[:3]), replay['first_diff']))
+                        ctx.notes.append(metamorphic.outside_examples[-1])
+                    continue
+                what = ('GIR differs from the baseline (PYTHONHASHSEED=%s, unpermuted) under variant %r with PYTHONHASHSEED=%s: %s'
+                        % (seeds[0], label, seed, replay['first_diff']))
+                ctx.report_failure('meta:%s:%s:%s' % (hashlib.sha1(json.dumps(inp, sort_keys=True).encode()).hexdigest()[:12],
+                                                      kind, seed), what, replay)
         if len(samples) < 2:
             samples.append({'op': 'metamorphic', 'input': {k: inp[k] for k in ('decls', 'comments', 'dump', 'includes',
                                                                                'packages', 'c_includes')},
@@ -1231,6 +1702,7 @@ def metamorphic(ctx, cnt, pool, inputs, seeds, nperm, rng, samples):
 
 
 metamorphic.precedence = {}
+metamorphic.outside_examples = []
 
 
 def load_corpus():
@@ -1310,6 +1782,11 @@ def run(ctx):
         n_eval += metamorphic(ctx, cnt, pool, inputs[i:i + chunk], seeds, nperm, rng, samples)
         ctx.log('metamorphic: %d/%d inputs, %d scans compared, %d subprocesses' % (min(i + chunk, len(inputs)), len(inputs), n_eval, pool.spawned))
     total += n_eval
+    # the cold/warm comparison says nothing if the warm runs never got an answer from the cache
+    if cnt.counts.get('variant:cache', 0) + cnt.counts.get('variant:xcache', 0) > 0 \
+            and 'cache:warm-run-loads' in cnt.counts and cnt.counts.get('cache:warm-run-hits', 0) == 0:
+        ctx.broken.append('cache transparency not exercised: no warm run was answered from the cache (CacheStore.load '
+                          'returned None every time)')
 
     samples.append({'op': 'c16.parse', 'syms': [{'s': 'typedef', 'kind': 'record', 'ident': 'FooT', 'tag': '_FooT', 'file': 'a.h', 'line': 3},
                                                {'s': 'struct', 'kind': 'record', 'tag': '_FooT', 'fields': ['x'], 'file': 'b.h', 'line': 7}]})
@@ -1322,12 +1799,19 @@ def run(ctx):
                 'namespaces through GIRWriter. Metamorphic stream (validated, not proved): corpus + seeded inputs (compounds '
                 'in all typedef/struct orders incl. tags seen at several positions, two typedefs of a tag, methods/ctors/'
                 'functions, enums, aliases, constants, callbacks, classes and interfaces with properties/signals/interfaces '
-                'from a dump, comment blocks in several files, dependency GIR DAGs, packages/c:includes with duplicates); '
-                'each input is scanned by the REAL pipeline in fresh subprocesses under %d PYTHONHASHSEED values x (identity + '
-                '%d permutation variants out of blocks/files/tagorder/tagmove/lists/cache/xcache + declaration/dump shuffles) '
-                'and compared byte for byte with the baseline; plus the statement oracle (sibling order = function of names '
-                'and kinds, keys pairwise distinct) on every baseline output. non-trivial = more than 3 declarations / more '
-                'than one element; distinct by content hash.' % (len(seeds), nperm),
+                'from a dump, comment blocks in several files, dependency GIR DAGs, a dependency GIR with a node of every '
+                'kind (alias, bitfield, enumeration, callback, class, interface, record, union, glib:boxed, constant, '
+                'function, function-macro, docsection; introspectable=0 / disguised / pointer / foreign / fundamental '
+                'flavours) used by value, by pointer, as callback, as parent class and interface, alias chains up to 4 deep '
+                'over introspectable and non-introspectable roots with the callables using them, doc text / string '
+                'constants / package and c:include names with CR LF TAB quotes & < > non-ASCII, packages/c:includes with '
+                'duplicates); each input is scanned by the REAL pipeline in fresh subprocesses under %d PYTHONHASHSEED '
+                'values x (identity + %d permutation variants out of blocks/files/tagorder/tagmove/lists/cache/xcache/decls '
+                '+ one of dump/decls-any/decls) and compared byte for byte with the baseline (cache: the cold storing run '
+                'and the warm loading run, xcache: a cache written by a process with another hash seed); plus the '
+                'statement oracle (sibling order = function of names and kinds, keys pairwise distinct) on every baseline '
+                'output. non-trivial = more than 3 declarations / more than one element; distinct by content hash.'
+                % (len(seeds), nperm),
         'samples': samples,
         'distribution': cnt.counts,
         'corpus_cases': len(corpus),
@@ -1338,6 +1822,7 @@ def run(ctx):
                           'runtime fact: validated metamorphically on the real pipeline, not proved',
         'pending_findings': sorted(PENDING_FINDINGS),
         'element_group_orders': {k: sorted('%s<%s' % p for p in v) for k, v in metamorphic.precedence.items()},
+        'outside_examples': list(metamorphic.outside_examples),
     })
     ctx.assumptions.extend([
         'the C lexer is not run: inputs start at the symbol stream (scanpipe builds the symbols the lexer would deliver)',
@@ -1345,7 +1830,11 @@ def run(ctx):
         'comment blocks with duplicated identifiers are flagged by the parser ("multiple comment blocks") and counted '
         'outside the quantifier when both orders were warned about',
         'swapping two typedefs of ONE tag is not claimed symmetric (first typedef is the primary record by design)',
-        'declaration/dump shuffles are judged on the sibling-order signature; byte differences there are only counted',
+        'whole-declaration shuffles and dump shuffles are judged byte for byte as long as every typedef name is declared '
+        'before it is used (struct tags may be used before their definition; the typedefs of one tag keep their relative '
+        'order); a shuffled order that uses a typedef name before its typedef is a symbol stream no C front end delivers '
+        '(the lexer knows a type name only after its typedef): there only the sibling order is judged, a content '
+        'difference is counted as outside:use-before-declaration,content-differs',
         'Python `sorted` is modelled by a stable insertion sort (unique result for a total preorder); CPython set iteration '
         'order is modelled as an arbitrary permutation',
     ])
